@@ -31,3 +31,5 @@ def rules(ctx):
     S.free_verdict_rules(ctx)
     S.key_compare_rules(ctx)
     S.restore_commit_rules(ctx)
+    S.flush_take_rules(ctx)
+    S.oldest_search_rules(ctx)
